@@ -179,6 +179,38 @@ func main() {
 		}
 	}
 
+	// documentation matrix: every native type x every documented source (marshal side against the specification)
+	// and its reference encoding x every documented target type (decode side)
+	for rep := 0; rep < S; rep++ {
+		for _, id := range mv.NativeIDs {
+			t := mv.Native(gocql.Type(id))
+			for _, v := range mv.DocSources(r, id) {
+				pv := pvOf()
+				rn.MarshalCase("marshal-doc-matrix", pv, t, v, true)
+				c, null, ok := mv.Denote(t, v)
+				if !ok || null {
+					continue
+				}
+				data, eok := mv.SpecEncode(pv, t, c)
+				if !eok {
+					continue
+				}
+				for j, g := range mv.DocTargets(id) {
+					if (j+rep)%3 == 2 {
+						g = mv.TPtr(g)
+					}
+					rn.DecodeCase("unmarshal-doc-matrix", pv, t, data, g, c, false, true, "specification-conformant encoding")
+				}
+			}
+		}
+		for i := 0; i < 12; i++ {
+			v := mv.PreEpochTime(r)
+			rn.MarshalCase("marshal-pre-epoch", pvOf(), mv.Native(gocql.TypeTimestamp), v, true)
+			rn.MarshalCase("marshal-pre-epoch", pvOf(), mv.Native(gocql.TypeDate), v, true)
+			rn.MarshalCase("marshal-pre-epoch", pvOf(), &mv.Ty{K: "tuple", Es: []*mv.Ty{mv.Native(gocql.TypeDate), mv.Native(gocql.TypeTimestamp)}}, mv.VIfaces([]*mv.Val{mv.VPtr(v.T, v), v}), true)
+		}
+	}
+
 	// empty (zero-length, non-null) elements inside collections and tuples, into value and pointer element targets
 	for pv := 1; pv <= 5; pv++ {
 		text, blob := mv.Native(gocql.TypeText), mv.Native(gocql.TypeBlob)
@@ -248,5 +280,6 @@ func main() {
 	for k, n := range rn.Stat {
 		o.Extra[k] = n
 	}
+	o.Extra["coverage_matrix"] = rn.Matrix
 	o.Finish("From GocqlV Require Import Lib.Base C12.Model C12.Spec C12.Corr.", "C12.Corr.case", "C12.Corr.run")
 }
